@@ -221,6 +221,11 @@ def run_exhaustive(a, ctx):
         extra = shifted[:2] + g.site + shifted[2 + len(g.site):]
         run_body(mod, {"history": [[a, 0], [a, 1], [a, 0]], "words": [shifted, extra]}, ctx)
         run_body(mod, {"history": [[a, 1], [a, 0], [a, 1]], "words": [shifted, extra]}, ctx)
+    # the same class on the same nucleotides (structure spanning the origin) as
+    # every kind of record, in two orders
+    wrapped = dna.rot(wa, len(wa) // 2)
+    run_body(mod, {"history": [[a, 0, "l"], [a, 0, "u"], [a, 0, "c"], [a, 0, "r"]], "words": [wrapped]}, ctx)
+    run_body(mod, {"history": [[a, 0, "u"], [a, 0, "l"], [a, 0, "u"], [a, 0, "c"]], "words": [wrapped]}, ctx)
     for b in kits.kit_class_names():
         try:
             wb = fixed_instance(b)
